@@ -250,6 +250,12 @@ pub fn gen_case(rng: &mut Rng) -> Case {
             headers.push(("content-length".into(), len.to_string().into_bytes()));
         }
         let style = rng.below(3);
+        let declared = headers.iter().any(|(n, _)| n == "content-length");
+        let mut data = data;
+        if declared && rng.chance(1, 3) {
+            // more bytes than the request declares (a pipelined next request in the same read): they are not this request's
+            data.extend_from_slice(b"GET http://origin.test/next HTTP/1.1\r\n\r\n");
+        }
         body = segment(rng, &data, style).into_iter().filter(|x| !x.is_empty()).collect();
     }
     // origin response
@@ -262,6 +268,14 @@ pub fn gen_case(rng: &mut Rng) -> Case {
         resp.extend_from_slice(if rng.chance(1, 2) { b"HTTP/1.1 100 Continue\r\n\r\n".as_slice() } else { b"HTTP/1.1 103 Early Hints\r\nlink: </s.css>\r\n\r\n".as_slice() });
     }
     resp.extend_from_slice(format!("HTTP/1.1 {} Reason\r\n", status).as_bytes());
+    // a Connection header that nominates other fields of this response as hop-by-hop, in its own spelling, ahead of them
+    // (one that follows them is generated below)
+    match rng.below(10) {
+        0 => resp.extend_from_slice(b"Connection: close, X-Thing\r\n"),
+        1 => resp.extend_from_slice(b"Connection: x-thing ,SERVER\r\nconnection: Set-Cookie\r\n"),
+        2 => resp.extend_from_slice(b"Connection: Content-Type, Upgrade\r\n"),
+        _ => {}
+    }
     for _ in 0..rng.below(3) {
         let (n, v) = *rng.pick(&[
             ("Server", "o/1"),
@@ -274,8 +288,13 @@ pub fn gen_case(rng: &mut Rng) -> Case {
         ]);
         resp.extend_from_slice(format!("{}: {}\r\n", n, v).as_bytes());
     }
-    if rng.chance(1, 4) {
-        resp.extend_from_slice(b"Connection: close\r\n");
+    match rng.below(8) {
+        0 | 1 => resp.extend_from_slice(b"Connection: close\r\n"),
+        // a Connection header that nominates other fields of this response as hop-by-hop, in its own spelling
+        2 => resp.extend_from_slice(b"Connection: close, X-Thing\r\n"),
+        3 => resp.extend_from_slice(b"Connection: x-thing ,SERVER\r\nconnection: Set-Cookie\r\n"),
+        4 => resp.extend_from_slice(b"Connection: Content-Type\r\n"),
+        _ => {}
     }
     let bodiless = status == 204 || status == 304 || method == "HEAD";
     let mut closes = rng.chance(1, 2);
